@@ -58,12 +58,22 @@ USAGE (all names importable from `harness.stubs`)
        with stubs.dyadic_noise(123, p=4, span=8): …               # np.random.normal -> k/2^p lattice noise
        with stubs.zero_noise(): …
 
-6. Auer's confidence-width table `alg.beta_t` (two forms exist: the fixed code keeps a dict keyed by
-   DESIGN; the original code kept an array aligned with the iteration order of S at modelling time)::
+6. Auer's confidence widths.  The PROPERTY speaks about the displayed boxes, so read widths from them::
 
-       w = stubs.auer_get_widths(alg, S_order)       # -> {design: width row}; S_order only needed for the array form
-       stubs.auer_set_widths(alg, S_order, rows)     # installs rows[k] as the width of design S_order[k]
-       stubs.auer_width_form(alg)                    # "dict" | "array", detected once per vopy.algorithms.auer module
+       hw = stubs.auer_displayed_widths(alg, designs)  # {design: (upper − lower)/2 of its displayed box}
+
+   `alg.beta_t` is an internal store whose representation is free; three are recognised — "dict" (keyed by
+   design id), "positional" (array, row k belongs to the k-th element of S at modelling time),
+   "by-design" (array with one row per design of the design space, NaN rows for inactive designs)::
+
+       stubs.auer_width_form(alg)                    # "dict" | "positional" | "by-design" | "unknown"; detected once per
+                                                     # vopy.algorithms.auer module by running a tiny real Auer.modeling()
+       w = stubs.auer_get_widths(alg, S_order)       # -> {design: width row}; raises AuerWidthFormUnknown if unknown
+       stubs.auer_set_widths(alg, S_order, rows)     # INJECTION only: same type / shape / dtype / fill as the real
+                                                     # modeling() produces; read back and verified; raises if unknown
+
+   Callers must treat `AuerWidthFormUnknown` as "skip the families that need injection" and report one (F)
+   `auer-width-representation-unknown` — never guess.
 
 Everything that patches restores in a `finally`, so several cases can run in one process.
 """
@@ -817,47 +827,101 @@ def zero_noise():
 
 
 # --------------------------------------------------------------------------------------------
-# 6. Auer's width table
+# 6. Auer's widths
 # --------------------------------------------------------------------------------------------
+class AuerWidthFormUnknown(Exception):
+    """`Auer.beta_t` is stored in a representation this helper does not recognise"""
+
+
 _auer_form: dict = {}
 
 
-def auer_width_form(alg=None) -> str:
-    """"dict" if this tree's `Auer.modeling()` stores `beta_t` as a dict keyed by design, "array" if it
-    stores the positional array of the original code.  Detected once per `vopy.algorithms.auer` module
-    object by building a two-design Auer and calling its real `modeling()` (so a VOPY_REPO worktree with
-    the old code is handled too)."""
+def _auer_form_info(alg=None) -> dict:
+    """{"form", "dtype", "fill"} of `beta_t` as THIS tree's real `Auer.modeling()` produces it, detected once
+    per `vopy.algorithms.auer` module object: a three-design Auer whose S has already lost design 1 (a state
+    every run reaches) runs its real `modeling()`; the store is then classified by type and shape."""
     import vopy.algorithms.auer as AM
 
     key = id(AM)
     if key not in _auer_form:
-        a = build("Auer", in_data=np.array([[0.0], [1.0]]), out_data=np.zeros((2, 2)), epsilon=0.1)
+        a = build("Auer", in_data=np.array([[0.0], [1.0], [2.0]]), out_data=np.zeros((3, 2)), epsilon=0.1)
         a.round = 1
         a.model.update()
+        a.S = {0, 2}
         a.modeling()
-        _auer_form[key] = "dict" if isinstance(a.beta_t, dict) else "array"
+        bt = a.beta_t
+        info = {"form": "unknown", "dtype": None, "fill": None}
+        if isinstance(bt, dict):
+            if set(bt.keys()) == {0, 2}:
+                info["form"] = "dict"
+        elif isinstance(bt, np.ndarray) and bt.ndim == 2:
+            if bt.shape[0] == 2:
+                info.update(form="positional", dtype=bt.dtype)
+            elif bt.shape[0] == 3:
+                info.update(form="by-design", dtype=bt.dtype, fill=bt[1].copy())
+        _auer_form[key] = info
     return _auer_form[key]
 
 
+def auer_width_form(alg=None) -> str:
+    """"dict" | "positional" | "by-design" | "unknown" (see the usage section)"""
+    return _auer_form_info(alg)["form"]
+
+
+def auer_displayed_widths(alg, designs) -> dict:
+    """`{design: half-width vector}` of the DISPLAYED boxes — what Auer's certificate is stated about"""
+    regs = alg.design_space.confidence_regions
+    return {int(i): (np.asarray(regs[i].upper, dtype=float) - np.asarray(regs[i].lower, dtype=float)) / 2.0
+            for i in designs}
+
+
 def auer_get_widths(alg, S_order=None) -> dict:
-    """`{design index: width row (1-D float array)}` from `alg.beta_t` in either form.  For the array
-    form the caller passes `S_order` = iteration order of `alg.S` when `modeling()` ran (rows are
-    aligned with it)."""
+    """`{design index: width row (1-D float array)}` from the internal store `alg.beta_t`.
+    "positional" needs `S_order` = iteration order of `alg.S` when `modeling()` ran; "by-design" returns
+    the rows of `S_order` if given, else all non-NaN rows.  Raises `AuerWidthFormUnknown` otherwise."""
     bt = alg.beta_t
+    form = auer_width_form(alg)
     if isinstance(bt, dict):
         return {int(k): np.array(v, dtype=float).reshape(-1) for k, v in bt.items()}
+    if not isinstance(bt, np.ndarray) or bt.ndim != 2 or form in ("unknown", "dict"):
+        raise AuerWidthFormUnknown(f"beta_t is {type(bt).__name__} while this tree's modeling() produces {form!r}")
+    rows = np.asarray(bt, dtype=float)
+    if form == "by-design":
+        if rows.shape[0] != alg.design_space.cardinality:
+            raise AuerWidthFormUnknown("by-design table whose row count is not the design count")
+        idx = [int(i) for i in S_order] if S_order is not None else \
+            [i for i in range(rows.shape[0]) if not np.any(np.isnan(rows[i]))]
+        return {i: rows[i].reshape(-1).copy() for i in idx}
     if S_order is None:
         raise ValueError("positional beta_t: pass the iteration order of S at modelling time")
-    rows = np.asarray(bt, dtype=float)
+    if rows.shape[0] != len(S_order):
+        raise AuerWidthFormUnknown("positional table whose row count is not |S| at modelling time")
     return {int(i): rows[k].reshape(-1).copy() for k, i in enumerate(S_order)}
 
 
 def auer_set_widths(alg, S_order, rows) -> None:
-    """Install `rows[k]` as the confidence-width row of design `S_order[k]`, in the form the code
-    under test expects (what its own `modeling()` would have produced for `list(alg.S) == S_order`)."""
+    """INJECTION: install `rows[k]` as the confidence-width row of design `S_order[k]` exactly in the form
+    this tree's real `modeling()` would have produced for `list(alg.S) == S_order` (same type, shape, dtype,
+    fill for inactive designs), then read it back through `auer_get_widths` and verify.  Raises
+    `AuerWidthFormUnknown` when the representation is not recognised (callers skip their injection
+    families and report one (F) `auer-width-representation-unknown`)."""
+    info = _auer_form_info(alg)
     S_order = [int(i) for i in S_order]
     rows = np.asarray(rows, dtype=float).reshape(len(S_order), -1)
-    if auer_width_form(alg) == "dict":
+    if info["form"] == "dict":
         alg.beta_t = {i: rows[k].copy() for k, i in enumerate(S_order)}
+    elif info["form"] == "positional":
+        alg.beta_t = rows.astype(info["dtype"]).copy()
+    elif info["form"] == "by-design":
+        n = alg.design_space.cardinality
+        tab = np.empty((n, rows.shape[1]), dtype=info["dtype"])
+        fill = np.asarray(info["fill"]).reshape(-1)
+        tab[:] = fill if fill.size == rows.shape[1] else fill[0]
+        if S_order:
+            tab[S_order] = rows
+        alg.beta_t = tab
     else:
-        alg.beta_t = rows.copy()
+        raise AuerWidthFormUnknown("representation of Auer.beta_t not recognised")
+    back = auer_get_widths(alg, S_order)
+    if any(not np.array_equal(back[i], rows[k]) for k, i in enumerate(S_order)):
+        raise AuerWidthFormUnknown("injected widths do not read back")
